@@ -27,7 +27,7 @@ else
 fi
 RES=""
 for CH in $C $EXTRA; do
-  RAW=$(cd /verif && ISOBAR_REPO=$TARGET VERIF_SEED=${VERIF_SEED:-0} timeout 900 ./check $CH 2>&1)
+  RAW=$(cd /verif && VERIF_SCRATCH_EVIDENCE=1 ISOBAR_REPO=$TARGET VERIF_SEED=${VERIF_SEED:-0} timeout 900 ./check $CH 2>&1)
   O=$(echo "$RAW" | grep -E "^VIOLATION|tier=" | cut -c1-220 | head -4)
   # a check that neither reports a verdict nor a violation crashed (exit 2): say so, it is not a "miss" but a harness error
   [ -n "$O" ] || O="CHECK-CRASHED: $(echo "$RAW" | tail -1 | cut -c1-200)"
